@@ -371,6 +371,45 @@ func Run(c *Case) *vkit.Outcome {
 			}
 		}
 	}
+	// ... also for what comes next: the offset the next append receives does
+	// not depend on how often the database has been opened and closed before.
+	// A copy of the (closed) database is opened once, the original three
+	// times; both then append the same event.
+	copyPath := dbPath + ".copy"
+	for _, suffix := range []string{"", "-wal", "-shm"} {
+		if data, rerr := os.ReadFile(dbPath + suffix); rerr == nil {
+			os.WriteFile(copyPath+suffix, data, 0o600)
+		}
+	}
+	nextOffset := func(path string, opens int) (string, error) {
+		for k := 1; k < opens; k++ {
+			st, err := sqlite.New(path)
+			if err != nil {
+				return "", err
+			}
+			st.Close()
+		}
+		st, err := sqlite.New(path)
+		if err != nil {
+			return "", err
+		}
+		defer st.Close()
+		off, err := st.Append(context.Background(), &eventbus.Event{Type: "c14", Data: []byte(`{"id":990000}`), Timestamp: time.Unix(1, 0)})
+		return string(off), err
+	}
+	offCopy, errCopy := nextOffset(copyPath, 1)
+	offOrig, errOrig := nextOffset(dbPath, 3)
+	for _, suffix := range []string{"", "-wal", "-shm"} {
+		os.Remove(copyPath + suffix)
+	}
+	if errCopy != nil || errOrig != nil {
+		o.Failf("", "appending after the final reopenings failed: %v / %v", errCopy, errOrig)
+		return o
+	}
+	if offCopy != offOrig {
+		o.Failf("", "opening an existing database is not idempotent: the same database, opened once, gives the next append offset %q; opened and closed twice more before, offset %q", offCopy, offOrig)
+		return o
+	}
 	db, err := sql.Open("sqlite", "file:"+dbPath)
 	if err == nil {
 		var rows int
